@@ -323,11 +323,39 @@ func genCase(t *rapid.T) Case {
 		switch {
 		case k <= 7:
 			op = Op{Kind: "set", X: coordX(), Y: coordY(), R: gen.Rune(t, "r", false), Comb: gen.Comb(t, "comb"), Style: gen.Style(t, "st", true, true)}
+			if rapid.IntRange(0, 5).Draw(t, "zwmain") == 0 {
+				// a zero-width / control main rune carrying combining runes
+				op.R = rapid.SampledFrom([]rune{0x200B, '\t', 0x0301, 0, 0x7f}).Draw(t, "zw")
+				op.Comb = rapid.SliceOfN(rapid.SampledFrom(gen.CombMarks()), 1, 3).Draw(t, "zwcomb")
+			}
 			if lastSet != nil && rapid.IntRange(0, 3).Draw(t, "again") == 0 {
-				// re-store identical (or nearly identical) content at the same place
+				// re-store identical (or nearly identical) content at the same place,
+				// often right after the cell was marked clean
 				op = *lastSet
-				if rapid.Bool().Draw(t, "tweak") {
+				switch rapid.IntRange(0, 3).Draw(t, "tweak") {
+				case 1:
 					op.Style = gen.Style(t, "st2", true, true)
+				case 2:
+					// same main rune and style, same number of combining runes, other runes
+					if len(op.Comb) > 0 {
+						nc := make([]rune, len(op.Comb))
+						for j := range nc {
+							nc[j] = rapid.SampledFrom(gen.CombMarks()).Draw(t, "newcomb")
+						}
+						op.Comb = nc
+					} else {
+						op.Comb = []rune{rapid.SampledFrom(gen.CombMarks()).Draw(t, "newcomb1")}
+					}
+				case 3:
+					// shorter / longer combining list
+					if len(op.Comb) > 1 {
+						op.Comb = op.Comb[:len(op.Comb)-1]
+					} else {
+						op.Comb = append(append([]rune{}, op.Comb...), rapid.SampledFrom(gen.CombMarks()).Draw(t, "morecomb"))
+					}
+				}
+				if rapid.Bool().Draw(t, "cleanfirst") {
+					c.Ops = append(c.Ops, Op{Kind: "cleanall"})
 				}
 			}
 			o := op
